@@ -305,6 +305,21 @@ def run(ctx):
     from .c03 import rule_ambiguity_guard, spec_tables
     rule_ambiguity_guard(ctx, idx, mir, spec_tables(), rid="R15.5")
 
+    # ------------------------------------------------------------------ R15.8
+    r = ctx.rule("R15.8", "work per end tag does not grow with the nesting depth: the two functions that run for every end tag and own a depth-sized vector (HandlerVec::do_for_each_active_and_remove_tail over the end-tag handlers, Stack::pop_up_to over the open-element stack) search it from the back — a forward position/find/any over `self.items` walks over the entries of all enclosing elements (quadratic time on deeply nested input)", "E-MIR call shape", floor=2)
+    for nm in ("HandlerVec::do_for_each_active_and_remove_tail", "Stack::pop_up_to"):
+        f = mir.fn(nm)
+        scans = []
+        for g in [f] + [h for h in mir.fns if h.key.startswith(nm + "::{closure")]:
+            for bi, t in g.calls(r"Iterator::(position|find|find_map|any|all|max_by_key|min_by_key)$|::(position|find|contains)$"):
+                recv = g.deep(t["args"][0]) if t["args"] else ""
+                if "items" in recv and "rev(" not in recv.lower():
+                    scans.append((callee_key(t), recv[:70]))
+        back = [callee_key(t) for bi, t in f.calls(r"rposition$|rfind$|::rev$|::last$|last_mut$")]
+        r.inst(nm + "|search-from-the-back", sample={"forward_scans": scans, "backward_searches": back})
+        if scans or not back:
+            r.violate(nm + "|search-from-the-back", f"{nm} scans its depth-sized vector from the front ({scans}; backward searches: {back}): every end tag then costs time proportional to the number of open elements, i.e. closing n nested elements takes O(n^2) — a hang on 10^5-deep nesting", f.loc())
+
     # ------------------------------------------------------------------ R15.7 (shared with C14 R14.4 / C02 R02.2)
     # a range that is not re-based points past the new buffer: slicing clamps, but `end - start` style arithmetic and
     # debug assertions on ranges do not
